@@ -31,6 +31,8 @@ def _pred_class(base, name="TagP", with_transform=False):
         return self
 
     def predict(self, X):
+        if numpy.isnan(numpy.asarray(X, dtype=float)).any():
+            raise ValueError("stub predictor: NaN in the input")
         s = numpy.asarray(X, dtype=float).sum(axis=1) + self.tag
         return (s.astype(int) % 2) if base is ClassifierMixin else s
 
@@ -200,7 +202,7 @@ def observe(tid, case, variant, width=None):
     t = dict(id=tid, kind=kind, parent=parent, rank=rank, columns=cols if schema != "array" else ["X0", "X1", "X2"][:W],
              site=SITE_E, sig="schema=%s root=%s cols=%d" % (schema, kind[0], W), has_debug=False, has_dot=False,
              debug=[dict(seen=False, inid=-1, outid=-1, consistent=True) for _ in kind], same_output=True, second_alter_refused=True,
-             copy_ok=True, scorers_ok=True,
+             copy_ok=True, scorers_ok=True, failed_call_recorded=True,
              dot=dict(parsed=True, err="", nodes=[], edges=[]))
     objs, objs2 = {}, {}
     with warnings.catch_warnings():
@@ -271,6 +273,20 @@ def observe(tid, case, variant, width=None):
                         t["scorers_ok"] = False
                     except Exception:
                         pass
+            # a call that fails half way (the final predictor refuses a NaN): the records are those of THAT call
+            if method == "predict":
+                Xbad = X.copy()
+                if schema == "frame":
+                    Xbad.iloc[0, 0] = numpy.nan
+                else:
+                    Xbad[0, 0] = numpy.nan
+                try:
+                    pipe.predict(Xbad)
+                except ValueError:
+                    dbg = getattr(pipe, "_debug", None)
+                    t["failed_call_recorded"] = bool(dbg is not None and dbg.inputs.get("predict") is Xbad)
+                except Exception:
+                    pass
             # a deep copy of the altered pipeline, the original trained again on other data afterwards
             import copy
             try:
